@@ -82,6 +82,8 @@ func miscOps(r *hx.Run, g *gen) {
 		"sha256:" + h256 + " ", "sha256:" + h256 + "\n", "sha256::" + h256[:62], "sha256:" + h256[:10] + "zz" + h256[12:], "sha256:" + h256[:10] + "gg" + h256[12:],
 		"sha384:" + h512[:96], "md5:" + h256[:32], "sha256:0x" + h256[:62], "sha512:" + h512 + h512, "sha256:" + strings.Repeat("0", 64), "sha256:" + strings.Repeat("F", 64),
 		"sha256:" + h256[:32] + ":" + h256[32:], "sha512/256:" + h256, "sha256-" + h256,
+		"sha256:0x" + h256, "sha256:0X" + h256, "sha256:\t" + h256, "sha256:" + h256 + "\r\n", "\"sha256:" + h256 + "\"", "sha256:" + h256 + "\x00",
+		"sha256=" + h256, "sha256:" + h256 + ":", "sha-256:" + h256, "sha256:" + h256[:64] + "=",
 	}
 	for i := 0; i < g.cfg.N(30, 300); i++ {
 		// mutations of a good text: one character changed, dropped or inserted
